@@ -207,3 +207,337 @@ pub open spec fn indexed<T, E>(hist: Map<T, Seq<E>>) -> Map<T, Seq<(usize, E)>> 
     Map::new(hist.dom(), |t: T| Seq::new(hist[t].len(), |j: int| (j as usize, hist[t][j])))
 }
 
+
+// ===== Part 4: the admissible orders in the WORDING of C08 / C14 (definitions only) =====
+// A total order `tail` comes with an assignment `who` of every position to a thread. Position i is then
+// the occurrence number `cnt(who, who[i], i)` (its rank) of that thread: the pair (thread, rank) tags the
+// element, so equal (op, ret) values of different occurrences are distinguishable, no tagged occurrence
+// appears twice, and the occurrences of one thread appear with ranks 0, 1, 2, .. in this order, i.e. in
+// program order. `tail` is a permutation of "all completed operations plus the in-flight operations of
+// a subset S of the threads" that respects program order iff
+//   * every position holds the operation its tag names: the rank-th completed operation of the thread, or,
+//     when the rank equals the number of completed operations, the thread's in-flight operation (which is
+//     thereby after all completed ones of the thread; S = the threads whose in-flight operation occurs), and
+//   * every completed operation occurs (each thread occurs at least as often as it has completed operations).
+pub open spec fn cnt<T>(who: Seq<T>, t: T, n: int) -> nat
+    decreases n
+{
+    if n <= 0 { 0 } else { cnt(who, t, n - 1) + if who[n - 1] == t { 1nat } else { 0nat } }
+}
+pub open spec fn len_of<T, E>(rem: Map<T, Seq<E>>, t: T) -> nat {
+    if rem.contains_key(t) { rem[t].len() } else { 0 }
+}
+pub open spec fn sc_slot_ok<T, Op, Ret>(tail: Seq<(Op, Ret)>, who: Seq<T>, rem: Map<T, Seq<(Op, Ret)>>, inf: Map<T, Op>, i: int) -> bool {
+    let t = who[i];
+    let k = cnt(who, t, i);
+    (k < len_of(rem, t) && tail[i] == rem[t][k as int]) || (k == len_of(rem, t) && inf.contains_key(t) && tail[i].0 == inf[t])
+}
+pub open spec fn sc_perm<T, Op, Ret>(tail: Seq<(Op, Ret)>, who: Seq<T>, rem: Map<T, Seq<(Op, Ret)>>, inf: Map<T, Op>) -> bool {
+    &&& who.len() == tail.len()
+    &&& forall|i: int| 0 <= i < tail.len() ==> #[trigger] sc_slot_ok(tail, who, rem, inf, i)
+    &&& forall|t: T| rem.contains_key(t) ==> #[trigger] cnt(who, t, who.len() as int) >= rem[t].len()
+}
+
+pub proof fn lemma_cnt_drop_first<T>(who: Seq<T>, t: T, n: int)
+    requires 0 <= n < who.len()
+    ensures cnt(who.drop_first(), t, n) + (if who[0] == t { 1nat } else { 0nat }) == cnt(who, t, n + 1)
+    decreases n
+{
+    reveal_with_fuel(cnt, 2);
+    if n > 0 {
+        lemma_cnt_drop_first(who, t, n - 1);
+        assert(who.drop_first()[n - 1] == who[n]);
+    }
+}
+
+// C08: the same with real-time precedence. `cs` is the last-completed map recorded at the invocation of
+// the operation `o` tagged (t, k) that stands at position i: every OTHER operation (p, j) whose history
+// index is <= cs[p] - i.e. every operation that had completed when `o` was invoked - stands before
+// position i (its rank j is below the number of occurrences of p before i).
+pub open spec fn rt_placed<T, Op, Ret>(who: Seq<T>, rem: Map<T, Seq<(usize, (BTreeMap<T, usize>, Op, Ret))>>, cs: Map<T, usize>, t: T, k: int, i: int) -> bool {
+    forall|p: T, j: int| #![trigger rem[p][j]]
+        cs.contains_key(p) && rem.contains_key(p) && 0 <= j < rem[p].len() && rem[p][j].0 <= cs[p] && !(p == t && j == k)
+        ==> j < cnt(who, p, i)
+}
+pub open spec fn lin_slot_ok<T, Op, Ret>(tail: Seq<(Op, Ret)>, who: Seq<T>, rem: Map<T, Seq<(usize, (BTreeMap<T, usize>, Op, Ret))>>, inf: Map<T, (BTreeMap<T, usize>, Op)>, i: int) -> bool {
+    let t = who[i];
+    let k = cnt(who, t, i);
+    (k < len_of(rem, t) && tail[i] == (rem[t][k as int].1.1, rem[t][k as int].1.2) && rt_placed(who, rem, rem[t][k as int].1.0@, t, k as int, i))
+    || (k == len_of(rem, t) && inf.contains_key(t) && tail[i].0 == inf[t].1 && rt_placed(who, rem, inf[t].0@, t, k as int, i))
+}
+pub open spec fn lin_perm<T, Op, Ret>(tail: Seq<(Op, Ret)>, who: Seq<T>, rem: Map<T, Seq<(usize, (BTreeMap<T, usize>, Op, Ret))>>, inf: Map<T, (BTreeMap<T, usize>, Op)>) -> bool {
+    &&& who.len() == tail.len()
+    &&& forall|i: int| 0 <= i < tail.len() ==> #[trigger] lin_slot_ok(tail, who, rem, inf, i)
+    &&& forall|t: T| rem.contains_key(t) ==> #[trigger] cnt(who, t, who.len() as int) >= rem[t].len()
+}
+
+// ===== Part 5: the event log (ghost) and the abstract transition systems of the two testers =====
+// An event log is the sequence of calls made on a tester. `sc_next` / `lin_post` are the `on_invoke` /
+// `on_return` contracts of the two units read as a transition function / relation on the abstract state
+// (validity flag, per-thread completed operations, per-thread in-flight operation); the units prove
+// `event-step` postconditions that tie the real functions to them.
+pub enum Ev<T, Op, Ret> {
+    Invoke(T, Op),
+    Return(T, Ret),
+}
+pub open spec fn ev_thread<T, Op, Ret>(e: Ev<T, Op, Ret>) -> T {
+    match e { Ev::Invoke(t, _) => t, Ev::Return(t, _) => t }
+}
+#[verifier::reject_recursive_types(T)]
+pub ghost struct ScState<T, Op, Ret> {
+    pub valid: bool,
+    pub hist: Map<T, Seq<(Op, Ret)>>,
+    pub inf: Map<T, Op>,
+}
+#[verifier::reject_recursive_types(T)]
+pub ghost struct LinState<T, Op, Ret> {
+    pub valid: bool,
+    pub hist: Map<T, Seq<(BTreeMap<T, usize>, Op, Ret)>>,
+    pub inf: Map<T, (BTreeMap<T, usize>, Op)>,
+}
+pub open spec fn with_entry<T, E>(hist: Map<T, Seq<E>>, t: T) -> Map<T, Seq<E>> {
+    if hist.contains_key(t) { hist } else { hist.insert(t, Seq::empty()) }
+}
+// for every OTHER thread that has completed at least one operation, the index of its last completed operation
+pub open spec fn last_completed_of<T, E>(hist: Map<T, Seq<E>>, me: T) -> Map<T, usize> {
+    Map::new(hist.dom().filter(|t: T| t != me && hist[t].len() > 0), |t: T| (hist[t].len() - 1) as usize)
+}
+pub open spec fn sc_fresh<T, Op, Ret>() -> ScState<T, Op, Ret> {
+    ScState { valid: true, hist: Map::empty(), inf: Map::empty() }
+}
+pub open spec fn sc_next<T, Op, Ret>(s: ScState<T, Op, Ret>, e: Ev<T, Op, Ret>) -> ScState<T, Op, Ret> {
+    if !s.valid { s } else {
+        match e {
+            Ev::Invoke(t, op) =>
+                if s.inf.contains_key(t) { ScState { valid: false, hist: s.hist, inf: s.inf } }
+                else { ScState { valid: true, hist: with_entry(s.hist, t), inf: s.inf.insert(t, op) } },
+            Ev::Return(t, ret) =>
+                if !s.inf.contains_key(t) { ScState { valid: false, hist: with_entry(s.hist, t), inf: s.inf } }
+                else { ScState { valid: true, hist: s.hist.insert(t, with_entry(s.hist, t)[t].push((s.inf[t], ret))), inf: s.inf.remove(t) } },
+        }
+    }
+}
+// the abstract state of an SC tester created by `new` and fed the events of `log` in order
+pub open spec fn sc_run<T, Op, Ret>(log: Seq<Ev<T, Op, Ret>>) -> ScState<T, Op, Ret>
+    decreases log.len()
+{
+    if log.len() == 0 { sc_fresh() } else { sc_next(sc_run(log.drop_last()), log.last()) }
+}
+pub open spec fn lin_fresh<T, Op, Ret>(s: LinState<T, Op, Ret>) -> bool {
+    s.valid && s.hist =~= Map::<T, Seq<(BTreeMap<T, usize>, Op, Ret)>>::empty() && s.inf =~= Map::<T, (BTreeMap<T, usize>, Op)>::empty()
+}
+// a relation, not a function: the recorded last-completed map is a fresh BTreeMap of which only the view is known
+pub open spec fn lin_post<T, Op, Ret>(s: LinState<T, Op, Ret>, e: Ev<T, Op, Ret>, s1: LinState<T, Op, Ret>) -> bool {
+    if !s.valid { s1 =~= s } else {
+        match e {
+            Ev::Invoke(t, op) =>
+                if s.inf.contains_key(t) { !s1.valid && s1.hist =~= s.hist && s1.inf =~= s.inf }
+                else {
+                    &&& s1.valid
+                    &&& s1.hist =~= with_entry(s.hist, t)
+                    &&& s1.inf.dom() =~= s.inf.dom().insert(t)
+                    &&& forall|u: T| u != t && s.inf.contains_key(u) ==> #[trigger] s1.inf[u] == s.inf[u]
+                    &&& s1.inf[t].1 == op
+                    &&& s1.inf[t].0@ =~= last_completed_of(s.hist, t)
+                },
+            Ev::Return(t, ret) =>
+                if !s.inf.contains_key(t) { !s1.valid && s1.hist =~= with_entry(s.hist, t) && s1.inf =~= s.inf }
+                else {
+                    &&& s1.valid
+                    &&& s1.inf =~= s.inf.remove(t)
+                    &&& s1.hist =~= s.hist.insert(t, with_entry(s.hist, t)[t].push((s.inf[t].0, s.inf[t].1, ret)))
+                },
+        }
+    }
+}
+// `s` is an abstract state a linearizability tester created by `new` can be in after the events of `log`
+pub open spec fn lin_reach<T, Op, Ret>(log: Seq<Ev<T, Op, Ret>>, s: LinState<T, Op, Ret>) -> bool
+    decreases log.len()
+{
+    if log.len() == 0 { lin_fresh(s) } else {
+        exists|s0: LinState<T, Op, Ret>| lin_reach(log.drop_last(), s0) && #[trigger] lin_post(s0, log.last(), s)
+    }
+}
+
+// ---- what the log itself says, thread by thread (independent of any tester) ----
+// the operation thread t has in flight after `log`: its last event is an invocation
+pub open spec fn pending<T, Op, Ret>(log: Seq<Ev<T, Op, Ret>>, t: T) -> Option<Op>
+    decreases log.len()
+{
+    if log.len() == 0 { None } else {
+        match log.last() {
+            Ev::Invoke(u, op) => if u == t { Some(op) } else { pending(log.drop_last(), t) },
+            Ev::Return(u, _) => if u == t { None } else { pending(log.drop_last(), t) },
+        }
+    }
+}
+// the completed operations of thread t in `log`, in program order: every return paired with the invocation it answers
+pub open spec fn completed<T, Op, Ret>(log: Seq<Ev<T, Op, Ret>>, t: T) -> Seq<(Op, Ret)>
+    decreases log.len()
+{
+    if log.len() == 0 { Seq::empty() } else {
+        match log.last() {
+            Ev::Return(u, ret) =>
+                if u == t && pending(log.drop_last(), t) is Some { completed(log.drop_last(), t).push((pending(log.drop_last(), t).unwrap(), ret)) }
+                else { completed(log.drop_last(), t) },
+            Ev::Invoke(_, _) => completed(log.drop_last(), t),
+        }
+    }
+}
+// well-formed: never a second invocation while one is in flight, never a return without an invocation
+pub open spec fn wf_log<T, Op, Ret>(log: Seq<Ev<T, Op, Ret>>) -> bool
+    decreases log.len()
+{
+    log.len() == 0 || (wf_log(log.drop_last()) && match log.last() {
+        Ev::Invoke(u, _) => pending(log.drop_last(), u) is None,
+        Ev::Return(u, _) => pending(log.drop_last(), u) is Some,
+    })
+}
+pub open spec fn threads<T, Op, Ret>(log: Seq<Ev<T, Op, Ret>>) -> Set<T>
+    decreases log.len()
+{
+    if log.len() == 0 { Set::empty() } else { threads(log.drop_last()).insert(ev_thread(log.last())) }
+}
+// the per-thread projections of a log, as the abstract state of an SC tester
+pub open spec fn log_state<T, Op, Ret>(log: Seq<Ev<T, Op, Ret>>) -> ScState<T, Op, Ret> {
+    ScState {
+        valid: true,
+        hist: Map::new(threads(log), |t: T| completed(log, t)),
+        inf: Map::new(threads(log).filter(|t: T| pending(log, t) is Some), |t: T| pending(log, t).unwrap()),
+    }
+}
+// real time: at an invocation by thread `me` made after the events of `pre`, peer p has
+// `completed(pre, p).len()` returned operations; the map the linearizability tester must record then
+pub open spec fn lc_map<T, Op, Ret>(pre: Seq<Ev<T, Op, Ret>>, me: T) -> Map<T, usize> {
+    Map::new(threads(pre).filter(|p: T| p != me && completed(pre, p).len() > 0), |p: T| (completed(pre, p).len() - 1) as usize)
+}
+// the map in force for thread t's in-flight operation, and the maps of its completed operations, by the log alone
+pub open spec fn pending_lc<T, Op, Ret>(log: Seq<Ev<T, Op, Ret>>, t: T) -> Option<Map<T, usize>>
+    decreases log.len()
+{
+    if log.len() == 0 { None } else {
+        match log.last() {
+            Ev::Invoke(u, _) => if u == t { Some(lc_map(log.drop_last(), t)) } else { pending_lc(log.drop_last(), t) },
+            Ev::Return(u, _) => if u == t { None } else { pending_lc(log.drop_last(), t) },
+        }
+    }
+}
+pub open spec fn completed_lc<T, Op, Ret>(log: Seq<Ev<T, Op, Ret>>, t: T) -> Seq<Map<T, usize>>
+    decreases log.len()
+{
+    if log.len() == 0 { Seq::empty() } else {
+        match log.last() {
+            Ev::Return(u, _) =>
+                if u == t && pending_lc(log.drop_last(), t) is Some { completed_lc(log.drop_last(), t).push(pending_lc(log.drop_last(), t).unwrap()) }
+                else { completed_lc(log.drop_last(), t) },
+            Ev::Invoke(_, _) => completed_lc(log.drop_last(), t),
+        }
+    }
+}
+
+// ===== Part 6: event-log lemmas shared by the two units (proved, nothing trusted) =====
+// forgetting the real-time bookkeeping: linearizability-tester state -> SC-tester state
+pub open spec fn strip_rem<T, Op, Ret>(rem: Map<T, Seq<(usize, (BTreeMap<T, usize>, Op, Ret))>>) -> Map<T, Seq<(Op, Ret)>> {
+    Map::new(rem.dom(), |t: T| Seq::new(rem[t].len(), |j: int| (rem[t][j].1.1, rem[t][j].1.2)))
+}
+pub open spec fn strip_hist<T, Op, Ret>(hist: Map<T, Seq<(BTreeMap<T, usize>, Op, Ret)>>) -> Map<T, Seq<(Op, Ret)>> {
+    Map::new(hist.dom(), |t: T| Seq::new(hist[t].len(), |j: int| (hist[t][j].1, hist[t][j].2)))
+}
+pub open spec fn strip_inf<T, Op>(inf: Map<T, (BTreeMap<T, usize>, Op)>) -> Map<T, Op> {
+    Map::new(inf.dom(), |t: T| inf[t].1)
+}
+
+pub open spec fn strip_state<T, Op, Ret>(s: LinState<T, Op, Ret>) -> ScState<T, Op, Ret> {
+    ScState { valid: s.valid, hist: strip_hist(s.hist), inf: strip_inf(s.inf) }
+}
+
+// ---- C14 over event logs: the tester's state IS the log's per-thread projection -----------------------
+proof fn lemma_pending_in_threads<T, Op, Ret>(log: Seq<Ev<T, Op, Ret>>, t: T)
+    ensures
+        pending(log, t) is Some ==> threads(log).contains(t),
+        completed(log, t).len() > 0 ==> threads(log).contains(t),
+    decreases log.len()
+{
+    if log.len() > 0 {
+        lemma_pending_in_threads(log.drop_last(), t);
+    }
+}
+
+// Folding the on_invoke / on_return contracts (`sc_next`, tied to the real functions by the `event-step`
+// postconditions) over a log: the tester is valid exactly for well-formed logs, and then its history and
+// in-flight maps are the log's per-thread projections (domain: the threads that occur in the log).
+//@props C14
+proof fn sc_run_is_log_projection<T, Op, Ret>(log: Seq<Ev<T, Op, Ret>>)
+    ensures
+        sc_run(log).valid == wf_log(log),
+        wf_log(log) ==> sc_run(log) == log_state(log),
+    decreases log.len()
+{
+    if log.len() == 0 {
+        assert(log_state(log).hist =~= Map::<T, Seq<(Op, Ret)>>::empty());
+        assert(log_state(log).inf =~= Map::<T, Op>::empty());
+    } else {
+        let pre = log.drop_last();
+        let e = log.last();
+        sc_run_is_log_projection(pre);
+        if wf_log(pre) {
+            let s0 = sc_run(pre);
+            let t = ev_thread(e);
+            lemma_pending_in_threads(pre, t);
+            assert(s0.inf.contains_key(t) == (pending(pre, t) is Some));
+            if wf_log(log) {
+                let s1 = sc_next(s0, e);
+                assert(completed(pre, t).len() == 0 ==> completed(pre, t) =~= Seq::<(Op, Ret)>::empty());
+                assert(s1.hist =~~= log_state(log).hist);
+                assert(s1.inf =~= log_state(log).inf);
+                assert(s1 =~= log_state(log));
+            }
+        }
+    }
+}
+
+
+// (3) the glue: a linearizability tester and an SC tester fed the SAME log are always in related states -
+// forgetting the bookkeeping of any state the linearizability tester can reach on `log` gives exactly the
+// state of the SC tester on `log` (well-formed or not).
+//@props C14
+proof fn lin_reach_strips_to_sc_run<T, Op, Ret>(log: Seq<Ev<T, Op, Ret>>, s: LinState<T, Op, Ret>)
+    requires lin_reach(log, s)
+    ensures strip_state(s) == sc_run(log)
+    decreases log.len()
+{
+    if log.len() == 0 {
+        assert(lin_fresh(s));
+        assert(s.hist =~= Map::<T, Seq<(BTreeMap<T, usize>, Op, Ret)>>::empty());
+        assert(strip_state(s).hist =~~= sc_fresh::<T, Op, Ret>().hist);
+        assert(strip_state(s).inf =~~= sc_fresh::<T, Op, Ret>().inf);
+        assert(strip_state(s) =~~= sc_fresh());
+    } else {
+        let pre = log.drop_last();
+        let e = log.last();
+        assert(exists|s0: LinState<T, Op, Ret>| lin_reach(log.drop_last(), s0) && #[trigger] lin_post(s0, log.last(), s));
+        let s0 = choose|s0: LinState<T, Op, Ret>| lin_reach(log.drop_last(), s0) && #[trigger] lin_post(s0, log.last(), s);
+        lin_reach_strips_to_sc_run(pre, s0);
+        let a0 = strip_state(s0);
+        let a1 = sc_next(a0, e);
+        if s0.valid {
+            let t = ev_thread(e);
+            assert(a0.inf.contains_key(t) == s0.inf.contains_key(t));
+            assert(strip_hist(with_entry(s0.hist, t)) =~~= with_entry(a0.hist, t));
+            match e {
+                Ev::Invoke(_, op) => {
+                    if !s0.inf.contains_key(t) {
+                        assert(strip_state(s).inf =~= a1.inf);
+                    }
+                }
+                Ev::Return(_, ret) => {
+                    if s0.inf.contains_key(t) {
+                        assert(strip_state(s).hist =~~= a1.hist);
+                        assert(strip_state(s).inf =~= a1.inf);
+                    }
+                }
+            }
+        }
+        assert(strip_state(s) =~~= a1);
+    }
+}
